@@ -50,6 +50,23 @@ fn main() {
             (a + b, p.join().is_err())
         });
         assert!(matches!(out.result, dstsim::RunResult::Done((3, true))));
+        // the closure of a scope unwinds while a scoped thread waits to hand over a value on a
+        // rendezvous channel: the receiver dies with the closure, the worker's send fails, the
+        // scope ends (this used to stop the simulation for real: the implicit join of the scope
+        // was skipped on unwinding and the real scope parked with the baton in hand)
+        let out = dstsim::run(cfg.clone(), || {
+            let (tx, rx) = mpsc::sync_channel::<u32>(0);
+            let r = std::panic::catch_unwind(std::panic::AssertUnwindSafe(|| {
+                thread::scope(|s| {
+                    let rx = rx;
+                    s.spawn(move || tx.send(7).is_err());
+                    let _first = rx.try_recv();
+                    std::panic::resume_unwind(Box::new(()));
+                })
+            }));
+            r.is_err()
+        });
+        assert!(matches!(out.result, dstsim::RunResult::Done(true)), "{:?}", out.result.kind());
         // a deadlock is detected and torn down (every task unwinds)
         let out = dstsim::run(cfg, || {
             let (tx, rx) = mpsc::channel::<u8>();
